@@ -470,6 +470,8 @@ def build_model(cfg):
         press = SimplePressureProfile(nlayers=N, atm_min_pressure=pmin, atm_max_pressure=pmax)
     elif c['press'] == 'array':
         press = ArrayPressureProfile(np.logspace(np.log10(pmax), np.log10(pmin), N))
+    elif c['press'] == 'array-reversed':     # tabulated from the top of the atmosphere down, reverse=True
+        press = ArrayPressureProfile(np.logspace(np.log10(pmin), np.log10(pmax), N), reverse=True)
     elif c['press'] == 'file':
         from taurex.pressure import FilePressureProfile
         fn = os.path.join(fx.fresh_dir('c16pfile'), 'p.txt')
@@ -1016,7 +1018,7 @@ def explore(ctx):
         'kind': ['T', 'Tnew', 'E3', 'D2'],
         'temp': ['iso', 'guillot', 'npoint0', 'npoint1P', 'npoint2', 'rodgers', 'rodgersC', 'tfile', 'tarray',
                  'tarrayP'],
-        'press': ['simple', 'array', 'file'],
+        'press': ['simple', 'array', 'file', 'array-reversed'],
         'gases': ['h2o', 'three', 'twolayer', 'power', 'array', 'twopoint', 'chemfile'],
         'fill': ['H2He', 'H2', 'H2HeN2', 'He'],
         'contribs': ['abs', 'abs+ray', 'abs+cia', 'abs+clouds', 'abs+lee', 'abs+flat', 'all'],
